@@ -42,6 +42,11 @@ def int_try_from_model(name):
     return None
 
 
+def _is_value_type(s):
+    import re
+    return re.search(r"minijinja::value::Value(?![A-Za-z_])", s) is not None
+
+
 def enum_remap(prog, g, adt):
     """for a function `fn(E) -> E` of the program built from `if x == E::A { E::B } else { x }` / `match` arms: the
     mapping variant -> variant it computes (identity where the parameter is returned); None if it is not of that form"""
@@ -49,8 +54,16 @@ def enum_remap(prog, g, adt):
         return None
     t0 = g.locals[0].get("s", "")
     t1 = g.locals[1].get("s", "")
-    if adt not in t0 or adt not in t1:
+    # the helper may take the enum itself or the value whose `kind()` it folds (`kind_rank(value: &Value)`)
+    of_value = adt == KIND and _is_value_type(t1)
+    if adt not in t0 or (adt not in t1 and not of_value):
         return None
+
+    def is_src(o):
+        if o.kind == "arg" and o.arg == 1 and not o.proj:
+            return not of_value
+        return of_value and o.kind == "call" and o.call.name == KINDFN and all(
+            q.kind == "arg" and q.arg == 1 for q in flow.origins(g, o.call.args[0]))
     variants = [v["name"] for v in prog.adt(adt)["variants"]]
     mapping = {v: v for v in variants}
 
@@ -62,8 +75,7 @@ def enum_remap(prog, g, adt):
                     rv = st["rv"]
                     if rv["k"] == "agg" and rv.get("adt") == adt:
                         outs.add(rv["variant"])
-                    elif rv["k"] == "use" and "c" not in rv["op"] and all(
-                            o.kind == "arg" and o.arg == 1 and not o.proj for o in flow.origins(g, rv["op"])):
+                    elif rv["k"] == "use" and "c" not in rv["op"] and all(is_src(o) for o in flow.origins(g, rv["op"])):
                         outs.add("=")
                     else:
                         outs.add("?")
@@ -75,7 +87,7 @@ def enum_remap(prog, g, adt):
         ee = flow.enum_eq(g, cd)
         if ee is not None:
             var, other = ee
-            if not all(o.kind == "arg" and o.arg == 1 for o in other):
+            if not all(is_src(o) or (not of_value and o.kind == "arg" and o.arg == 1) for o in other):
                 return None
             side = {x for (_, x) in flow.true_side(g, sb, cd)}
             region = set()
@@ -91,6 +103,8 @@ def enum_remap(prog, g, adt):
             o = outs.pop()
             mapping[var] = var if o == "=" else o
         elif cd.kind == "discr" and cd.adt == adt:
+            if of_value and not all(is_src(o) for o in flow.origins(g, {"cp": cd.place})):
+                return None
             regs = arms.arm_regions(prog, g, sb, adt)
             for v, reg in regs.items():
                 outs = result_of(reg)
@@ -211,6 +225,13 @@ class Tables:
             mp = self.remaps[n]
             if mp is not None:
                 return ("K", frozenset(mp.get(x, x) for x in argvals[0]))
+        if self.prog.has_fn(n) and len(keys) == 1 and k0 in names and (argvals[0] is None):
+            # the same helper taking the value itself: kind() of the designated input, folded
+            if n not in self.remaps:
+                self.remaps[n] = enum_remap(self.prog, self.prog.fn(n), KIND)
+            mp = self.remaps[n]
+            if mp is not None and _is_value_type(self.prog.fn(n).locals[1].get("s", "")):
+                return ("K", frozenset(mp.get(x, x) for x in self.kind[names[k0]]))
         if n == V + "Value::is_number" and k0 in names:
             return ("B", frozenset(["1" if self.kind[names[k0]] == frozenset(["Number"]) else "0"]))
         if n == V + "Value::is_tuple" and k0 in names and names[k0] != "Object":
